@@ -78,6 +78,10 @@ def summarize(prop, camp):
                 viol.append((row, l, clause))
             else:
                 notes[clause] = notes.get(clause, 0) + 1
+                if os.environ.get('VERIF_DUMP_NOTES') and row.get('events'):
+                    ev = dict(row['events'][l - 1]); ev.pop('upd', None)
+                    print('NOTE-EVENT %s %s' % (clause, json.dumps(ev)[:600]))
+                    print('NOTE-OPS %d %s' % (l, json.dumps(row.get('oplist'))[:3000]))
     return viol, notes, nt
 
 
